@@ -4,6 +4,7 @@ package main
 
 import (
 	"regexp"
+	"strings"
 
 	"github.com/google/pprof/internal/driver"
 	"github.com/google/pprof/profile"
@@ -78,7 +79,7 @@ func runC11(c *Ctx) {
 	}
 	removeUn := func(gen string, p *profile.Profile) {
 		rxs := []string{"^(" + p.DropFrames + ")$", "^(" + p.KeepFrames + ")$"}
-		in := L(S("removeun"), DumpProfile(p), c06MatchTable(c11Universe(p), rxs))
+		in := L(S("removeun"), DumpProfile(p), c11Table(c11Universe(p), rxs, p))
 		before := Render(L(c06ObsProfile(p)...))
 		obs := c06Guard(func() Term {
 			st := "ok"
@@ -128,7 +129,7 @@ func runC11(c *Ctx) {
 	// RemoveUninteresting exactly once, whatever the mappings' HasFunctions/HasFilenames flags say
 	fetch := func(gen string, p *profile.Profile) {
 		rxs := []string{"^(" + p.DropFrames + ")$", "^(" + p.KeepFrames + ")$"}
-		in := L(S("fetch"), DumpProfile(p), c06MatchTable(c11Universe(p), rxs))
+		in := L(S("fetch"), DumpProfile(p), c11Table(c11Universe(p), rxs, p))
 		before := Render(c11FreeSamples(p))
 		obs := c06Guard(func() Term {
 			q, err := driver.VerifC11Fetch(p)
@@ -174,6 +175,19 @@ func runC11(c *Ctx) {
 		}
 		p.KeepFrames = PickS(r, c11Keeps)
 		fetch("fetch-rand", p)
+	}
+	// ---- "fully matches": drop_frames / keep_frames drawn from an expression grammar (top-level
+	// alternations whose first / last alternative starts / ends with a group, whole-expression groups,
+	// expressions that already carry ^ or $, flags) probed with names that match an alternative only
+	// PARTIALLY (prefix, suffix, infix, two alternatives glued together) next to names that match fully
+	for i := 0; i < c.Budget(300, 6000); i++ {
+		p, tag := c11AnchorProbe(r)
+		if i%3 == 2 {
+			fetch("anchor-probe", p)
+		} else {
+			removeUn("anchor-probe", p)
+		}
+		c.dist[tag]++
 	}
 	// ---- histories: several frame-dropping operations on the SAME *Profile object, directly and
 	// through the driver (fetchProfiles, then generateRawReport with prune_from as the command line
@@ -316,7 +330,7 @@ func c11History(c *Ctx, gen string, p *profile.Profile, steps []c11Step) {
 		}
 	}
 	tags = append(tags, "history:"+kinds)
-	in := L(S("history"), DumpProfile(p), L(st...), c06MatchTable(c11Universe(p), rxs))
+	in := L(S("history"), DumpProfile(p), L(st...), c11Table(c11Universe(p), rxs, p))
 	before := Render(c11FreeSamples(p))
 	obs := c06Guard(func() Term {
 		for _, s := range steps {
@@ -363,4 +377,177 @@ func c11WitnessRootMatch() *profile.Profile {
 		{Location: []*profile.Location{p.Location[1], p.Location[2]}, Value: []int64{2}}}
 	p.DropFrames = "rt"
 	return p
+}
+
+// c11Table is c06MatchTable plus the FULL-MATCH ORACLE for the profile's drop_frames / keep_frames:
+// an entry "=full=<expr>" (valid iff expr compiles on its own) listing the subjects that the expression
+// matches from the first to the last byte, decided with leftmost-longest matching of the expression
+// itself -- no anchoring string is built, so the specification's "fully matches" does not depend on
+// how RemoveUninteresting (or its model) spells the anchoring.
+func c11Table(universe []string, rxs []string, p *profile.Profile) Term {
+	t := c06MatchTable(universe, rxs).(tL)
+	us := t.l[0].(tL)
+	ents := append([]Term{}, t.l[1].(tL).l...)
+	seen := map[string]bool{}
+	for _, e := range []string{p.DropFrames, p.KeepFrames} {
+		if e == "" || seen[e] {
+			continue
+		}
+		seen[e] = true
+		re, err := regexp.Compile(e)
+		var ms []string
+		if err == nil {
+			re.Longest()
+			for _, u := range us.l {
+				s := u.(tS).s
+				if loc := re.FindStringIndex(s); loc != nil && loc[0] == 0 && loc[1] == len(s) {
+					ms = append(ms, s)
+				}
+			}
+		}
+		ents = append(ents, L(S("=full="+e), Bool(err == nil), Ss(ms)))
+	}
+	return L(us, L(ents...))
+}
+
+// c11Alt is one alternative of a generated expression with strings that match it fully.
+type c11Alt struct {
+	src  string
+	inst []string
+}
+
+func c11GenAlt(r *Rng) c11Alt {
+	lit := PickS(r, []string{"malloc", "new", "m1", "f", "op x", "rt.call", "Free"})
+	a := c11Alt{src: regexp.QuoteMeta(lit), inst: []string{lit}}
+	switch r.Intn(5) { // leading piece
+	case 0:
+		a.src = "(tc_)?" + a.src
+		a.inst = []string{lit, "tc_" + lit}
+	case 1:
+		a.src = "(a|b)" + a.src
+		a.inst = []string{"a" + lit, "b" + lit}
+	case 2:
+		a.src = "(?:x::)?" + a.src
+		a.inst = []string{lit, "x::" + lit}
+	}
+	switch r.Intn(5) { // trailing piece
+	case 0:
+		a.src += "(16|32)"
+		a.inst = []string{a.inst[0] + "16", a.inst[len(a.inst)-1] + "32"}
+	case 1:
+		a.src += "(_x)?"
+		a.inst = append(a.inst, a.inst[0]+"_x")
+	case 2:
+		a.src += "[0-9]"
+		a.inst = []string{a.inst[0] + "7", a.inst[len(a.inst)-1] + "0"}
+	}
+	return a
+}
+
+// c11GenExpr draws an expression and names that match it fully.
+func c11GenExpr(r *Rng) (string, []string, string) {
+	var srcs, inst []string
+	n := 1 + r.Intn(3)
+	edge := n > 1 && r.P(1, 3) // the expression starts with a group and ends with one without being one group
+	for i := 0; i < n; i++ {
+		a := c11GenAlt(r)
+		for edge && ((i == 0 && !strings.HasPrefix(a.src, "(")) || (i == n-1 && !strings.HasSuffix(a.src, ")") && !strings.HasSuffix(a.src, ")?"))) {
+			a = c11GenAlt(r)
+		}
+		srcs = append(srcs, a.src)
+		inst = append(inst, a.inst...)
+	}
+	e := ""
+	for i, s := range srcs {
+		if i > 0 {
+			e += "|"
+		}
+		e += s
+	}
+	shape := "plain"
+	k := r.Intn(8)
+	if edge {
+		k = 7
+	}
+	switch k {
+	case 0:
+		e, shape = "("+e+")", "one-group"
+	case 1:
+		e, shape = "(?:"+e+")", "one-noncapture-group"
+	case 2:
+		e, shape = "^"+e, "leading-caret"
+	case 3:
+		e, shape = e+"$", "trailing-dollar"
+	case 4:
+		e, shape = "(?i)"+e, "flag-i"
+		inst = append(inst, strings.ToUpper(inst[0]))
+	}
+	if n > 1 && shape == "plain" {
+		shape = "alternation"
+		if strings.HasPrefix(e, "(") && strings.HasSuffix(e, ")") {
+			shape = "alternation-group-first-and-last"
+		}
+	}
+	return e, inst, shape
+}
+
+// c11AnchorProbe builds a profile whose frames are full and partial matches of a generated
+// expression, each under a root that the drop expression does not match, some with a user leaf.
+func c11AnchorProbe(r *Rng) (*profile.Profile, string) {
+	e, inst, shape := c11GenExpr(r)
+	names := map[string]bool{}
+	var order []string
+	add := func(n string) {
+		if !names[n] && len(order) < 12 {
+			names[n] = true
+			order = append(order, n)
+		}
+	}
+	for _, w := range inst {
+		if r.P(2, 3) {
+			add(w)
+		}
+		switch r.Intn(5) {
+		case 0:
+			add(w + "_stats")
+		case 1:
+			add("pre_" + w)
+		case 2:
+			add("Pool::placement " + w + " hook")
+		case 3:
+			add(w + PickS(r, inst))
+		case 4:
+			add(strings.ToUpper(w))
+		}
+	}
+	add("main")
+	p := &profile.Profile{SampleType: []*profile.ValueType{{Type: "samples", Unit: "count"}}}
+	p.Mapping = []*profile.Mapping{{ID: 1, Start: 0x1000, Limit: 0x9000, File: "bin", HasFunctions: true}}
+	mk := func(n string) *profile.Location {
+		f := &profile.Function{ID: uint64(len(p.Function) + 1), Name: n, SystemName: n, Filename: "a.c"}
+		p.Function = append(p.Function, f)
+		l := &profile.Location{ID: uint64(len(p.Location) + 1), Mapping: p.Mapping[0], Address: 0x1000 + uint64(len(p.Location)),
+			Line: []profile.Line{{Function: f, Line: int64(len(p.Location) + 1)}}}
+		p.Location = append(p.Location, l)
+		return l
+	}
+	root, leaf := mk("zzroot"), mk("zzleaf")
+	for i, n := range order {
+		l := mk(n)
+		locs := []*profile.Location{l, root}
+		if i%2 == 1 {
+			locs = []*profile.Location{leaf, l, root}
+		}
+		p.Sample = append(p.Sample, &profile.Sample{Location: locs, Value: []int64{int64(i + 1)}})
+	}
+	mode := "drop"
+	if r.P(1, 3) { // keep mode: everything but the zz frames is dropped unless keep_frames FULLY matches it
+		p.DropFrames, p.KeepFrames, mode = "[^z].*", e, "keep"
+	} else {
+		p.DropFrames = e
+		if r.P(1, 4) {
+			p.KeepFrames = PickS(r, inst)
+		}
+	}
+	return p, "anchor:" + mode + ":" + shape
 }
